@@ -41,27 +41,27 @@ type abiT = abi.ABI
 var baseDenoms = []string{"coina", "coinb", "coinc", "coind"}
 
 type world struct {
-	rec    *kernel.Rec
-	cfg    map[string]int64
-	now    time.Time
-	c      *node.Chain
-	gov    *node.Account
-	users  []*node.Account
-	ext    []common.Address // externally owned ERC-20 contracts (index 0 honest, 1 delayed-malicious, 2 balance-manipulating)
+	rec     *kernel.Rec
+	cfg     map[string]int64
+	now     time.Time
+	c       *node.Chain
+	gov     *node.Account
+	users   []*node.Account
+	ext     []common.Address // externally owned ERC-20 contracts (index 0 honest, 1 delayed-malicious, 2 balance-manipulating)
 	mempool []*intent
-	props  []*prop
+	props   []*prop
 	// model
-	aggEnabled  bool
-	pairEnabled map[string]bool   // by lower-case contract address
-	sendEnabled map[string]bool   // by denom (absent = enabled)
-	vest        vestModel
-	crashNext   int
-	lastSupply  sdk.Coins
-	suicided    map[string]bool
-	pairCache   map[string]aggregatetypes.TokenPair
-	outstanding []outstanding
+	aggEnabled               bool
+	pairEnabled              map[string]bool // by lower-case contract address
+	sendEnabled              map[string]bool // by denom (absent = enabled)
+	vest                     vestModel
+	crashNext                int
+	lastSupply               sdk.Coins
+	suicided                 map[string]bool
+	pairCache                map[string]aggregatetypes.TokenPair
+	outstanding              []outstanding
 	forwarder, forger, batch common.Address
-	valopers    []string
+	valopers                 []string
 }
 
 type intent struct {
@@ -90,10 +90,10 @@ type convInfo struct {
 }
 
 type prop struct {
-	what string
-	id   uint64
+	what    string
+	id      uint64
 	content govtypes.Content
-	apply func(w *world)
+	apply   func(w *world)
 }
 
 // Scenario implements kernel.Scenario.
